@@ -336,6 +336,46 @@ def run_tdms_case(ctx, idx):
         shutil.rmtree(tmp, ignore_errors=True)
 
 
+def run_long_case(ctx, idx):
+    """A long measurement (scalar features only, more events than one storage chunk holds,
+    with a remainder after the last full chunk) whose further features come from a file basin:
+    the tasks must carry every event over (the contracts on the task functions judge)."""
+    import dclab
+    import dclab.cli as cli
+    from vmon import boot
+    from vmon.gen import dataset as gd
+    rng = ctx.rng(idx, salt=9)
+    tmp = boot.scratch() / f"c08_long_{idx}"
+    tmp.mkdir()
+    try:
+        n = int(rng.choice([131073, 150000, 262144 + 5000]))
+        meta = gd.complete_meta(rng, {}, n)
+        meta["experiment"]["run identifier"] = f"long-{idx}"
+        origin = tmp / "origin.rtdc"
+        with dclab.RTDCWriter(origin, mode="reset") as hw:
+            hw.store_metadata(meta)
+            hw.store_feature("area_um", rng.uniform(20, 200, n))
+            hw.store_feature("bright_avg", np.linspace(90, 110, n) + rng.normal(size=n))
+        pin = tmp / "input.rtdc"
+        with dclab.RTDCWriter(pin, mode="reset") as hw:
+            hw.store_metadata(meta)
+            hw.store_feature("deform", rng.uniform(0.01, 0.2, n))
+            hw.store_basin(basin_name="origin", basin_type="file", basin_format="hdf5",
+                           basin_locs=[str(origin)], basin_feats=["area_um", "bright_avg"])
+        task = str(rng.choice(["condense", "condense", "compress", "repack"]))
+        try:
+            getattr(cli, task)(path_in=pin, path_out=tmp / "o1.rtdc")
+            ctx.ev("task_no_exception")
+        except Exception as exc:
+            ctx.ev("task_no_exception")
+            ctx.violation("task_no_exception", {"task": task, "n": n, "exc": repr(exc)},
+                          message=f"{task} of a long measurement raised {exc!r}")
+        ctx.count(f"long_measurements[{task}]")
+        ctx.mark_nontrivial(["long", n, task])
+    finally:
+        shutil.rmtree(tmp, ignore_errors=True)
+
+
 def run(spec, ctx):
     from vmon.monitors import cli_tasks, export as emon, writer as wmon
     wmon.install(ctx)
@@ -344,6 +384,8 @@ def run(spec, ctx):
     for idx in ctx.case_ids():
         try:
             if spec["kind"] == "layout":
+                if idx % 40 == 11:
+                    run_long_case(ctx, idx)
                 run_layout_case(ctx, idx)
             else:
                 run_tdms_case(ctx, idx)
